@@ -231,8 +231,17 @@ def g_gen(rng, p, lo=-6, hi=6, signed=True):
     return g_val(rng, p, rng.randint(lo, hi), signed=signed)
 
 
+TIER = ["quick"]
+
+
+def _deep(p):
+    """the most expensive exponents (2^-2p, 2^-1000 at p >= 600) are left to the thorough tier"""
+    return TIER[0] == "thorough" or p <= 420
+
+
 def g_tiny(rng, p, signed=True):
-    e0 = rng.choice([-1000 + rng.randint(-10, 10), -p + rng.randint(-3, 3), -2 * p + rng.randint(-2, 2),
+    e0 = rng.choice([-1000 + rng.randint(-10, 10) if _deep(p) else -p - 5, -p + rng.randint(-3, 3),
+                     -2 * p + rng.randint(-2, 2) if _deep(p) else -p - 9,
                      -(p // 2) + rng.randint(-2, 2), -rng.randint(20, 300)])
     return g_val(rng, p, e0, signed=signed)
 
@@ -277,14 +286,14 @@ def g_kpi2(rng, p):
 
 
 def g_near1(rng, p, side=None, signed=False):
-    k = rng.choice([rng.randint(1, 8), int(2 ** rng.uniform(0, math.log2(p + 5))), p - 1, p, p + 1, p // 2, 2 * p])
+    k = rng.choice([rng.randint(1, 8), int(2 ** rng.uniform(0, math.log2(p + 5))), p - 1, p, p + 1, p // 2, 2 * p if _deep(p) else p + 2])
     s = side if side is not None else rng.choice([1, -1])
     v = 1 + s * Fraction(1, 2 ** k)
     return -v if signed and rng.random() < 0.5 else v
 
 
 def g_pm_eps(rng, p):
-    k = rng.choice([1, 5, 30, p // 2, p, p + 3, 2 * p, 1000])
+    k = rng.choice([1, 5, 30, p // 2, p, p + 3, 2 * p if _deep(p) else p + 7, 1000 if _deep(p) else p // 3])
     return rng.choice([1, -1]) * g_val(rng, p, -k, signed=False)
 
 
@@ -379,7 +388,7 @@ def _setup():
     reg("power", "gen", lambda rng, p: [abs(g_gen(rng, p, -3, 3)), g_gen(rng, p, -3, 4)], 1.5)
     reg("power", "int_exp", lambda rng, p: [g_gen(rng, p, -3, 3), g_int(rng, -40, 40)])
     reg("power", "half_exp", lambda rng, p: [abs(g_gen(rng, p)), Fraction(rng.randint(-9, 9) * 2 + 1, 2)], .5)
-    reg("power", "big_result", lambda rng, p: [abs(g_gen(rng, p, -2, 3)), g_modlarge(rng, p, hi=18)], .6)
+    reg("power", "big_result", lambda rng, p: [abs(g_gen(rng, p, -2, 3)), g_modlarge(rng, p, hi=13)], .6)
     reg("power", "near1_base", lambda rng, p: [g_near1(rng, p), g_modlarge(rng, p, hi=12)], .6)
     reg("power", "neg_base", lambda rng, p: [-abs(g_gen(rng, p, -3, 3)), g_gen(rng, p, -3, 3)], .7)
     reg("power", "cgen", lambda rng, p: [cgen(rng, p, -3, 2), cgen(rng, p, -3, 2)], .8)
@@ -437,6 +446,18 @@ def _setup():
 
 
 _setup()
+
+
+def _small(rng, p):
+    """moderately small arguments 2^-40..2^-3: where small-argument shortcuts and cancellation thresholds switch"""
+    return [g_val(rng, p, rng.randint(-40, -3))]
+
+
+for _fn in ("sin", "cos", "tan", "sec", "csc", "cot", "sinh", "cosh", "tanh", "exp", "asin", "acos", "atan", "asinh", "atanh",
+            "sinpi", "cospi", "expj", "expjpi", "log1p", "expm1", "sinc", "acot", "acsch"):
+    reg(_fn, "small", _small, .8)
+reg("log", "small_offset", lambda rng, p: [1 + g_val(rng, p, rng.randint(-40, -3))], .8)
+reg("acosh", "small_offset", lambda rng, p: [1 + abs(g_val(rng, p, rng.randint(-12, -3)))], .5)
 FUNCS = sorted(R)
 PRECS_QUICK = [10, 24, 53, 113, "400", "600", 1000]
 PRECS_THOROUGH = PRECS_QUICK + [2500, 3000]
@@ -540,8 +561,13 @@ def generate(rng, tier_, n_calls, fns=None, only=None):
         call = {"fn": fn, "regime": tag, "prec": prec, "args": [enc_arg(a) for a in args]}
         try:
             y = do_call(mp, fn, args, prec)
-        except (Exception, sweep.CallTimeout) as ex:
-            stats["raised"].append({"fn": fn, "regime": tag, "prec": prec, "exc": repr(ex)[:100]}); continue
+        except sweep.CallTimeout as ex:
+            stats["raised"].append({"fn": fn, "regime": tag, "prec": prec, "exc": "timeout 60 s"}); continue
+        except Exception as ex:
+            # the sampled arguments are finite, away from poles, and the reference value exists: raising is a failure
+            stats["raised"].append({"fn": fn, "regime": tag, "prec": prec, "exc": repr(ex)[:100]})
+            calls[cid] = call
+            direct.append(("raised %s for a finite argument where the function is defined" % (repr(ex)[:80],), call)); continue
         yv = value_of(y)
         call["result"] = [str(v) if not isinstance(v, Fraction) else list(dyadic(v)) for v in yv[1:]]
         try:
@@ -557,9 +583,11 @@ def generate(rng, tier_, n_calls, fns=None, only=None):
 
 def run(rep, tier_, rng):
     load_known_b(rep)
-    n_calls = 190 if tier_ == "quick" else 3600
+    TIER[0] = tier_
+    n_calls = 180 if tier_ == "quick" else 3600
     t0 = time.time()
-    insts, calls, direct, stats = generate(rng, tier_, n_calls)
+    focus = [f for f in os.environ.get("VERIF_C12_FUNCS", "").split(",") if f in R] or None   # debugging aid: sample only these
+    insts, calls, direct, stats = generate(rng, tier_, n_calls, fns=focus)
     tgen = time.time() - t0
     for viol, call in direct:
         c = dict(call); c["clause"] = "type/finite"
@@ -583,7 +611,8 @@ def run(rep, tier_, rng):
                               "fn_regime_cells_hit": len(regimes), "precisions": {str(k): v for k, v in sorted(precs.items())},
                               "calls_raised": stats["raised"][:20], "calls_raised_count": len(stats["raised"]),
                               "skipped_unestimable": stats["skipped_estimate"], "type_or_finiteness_violations": len(direct),
-                              "generation_wall_s": round(tgen, 1), "eps": "2^(4-p)"})
+                              "generation_wall_s": round(tgen, 1), "eps": "2^(4-p)",
+                              "focus": focus or "all functions"})
 
 
 def replay(rep, path):
